@@ -75,12 +75,39 @@ def iter_job(rng, jid, kind_of="iter", tree_only=False):
     return job
 
 
+def nested2_job(rng, jid):
+    """An iterator that lives across two resizes and sees the middle table only partly forwarded: it is
+    stopped at a value load, writer A completes the first resize, it goes on for a few more entries (now
+    descending through forwarding markers), writer B completes the second resize, then it finishes."""
+    u = gen.Uids()
+    cap = rng.choice([2, 5])
+    n = 4 if cap == 2 else 8
+    universe = list(range(1, 8 * n + 1))
+    rng.shuffle(universe)
+    npre = n - n // 4 - 1
+    pre_keys, rest = universe[:npre], universe[npre:]
+    a_keys, rest = rest[:rng.randint(1, 2)], rest[2:]
+    need = (2 * n - (2 * n) // 4) - (npre + len(a_keys))
+    b_keys = rest[:need + rng.randint(0, 2)]
+    kind = rng.choice(["map", "map", "set"])
+    itop = {"op": rng.choice(["iter", "iter", "keys", "values"]) if kind == "map" else "iter"}
+    threads = [[itop], [gen.ins(k, u) for k in a_keys], [gen.ins(k, u) for k in b_keys]]
+    j1 = rng.randint(1, max(1, npre - 1))
+    j2 = j1 + rng.randint(1, 3)
+    return {"id": jid, "cfg": "nested2-%d" % n, "kind": kind, "pin": rng.random() < 0.4, "scope": rng.choice(["thread", "op"]),
+            "hasher": gen.table_hasher({}), "cap": cap, "batch": rng.choice([1, 0]), "prefix": [gen.ins(k, u) for k in pre_keys],
+            "threads": threads, "sched": {"kind": "rr", "q": 1}, "finals": sorted(pre_keys + a_keys + b_keys), "rec": [], "budget": 400000,
+            "script": [{"run": 0, "until": {"kind": "load", "ty": "value", "nth": j1, "before": True}}, {"finish": 1},
+                       {"run": 0, "until": {"kind": "load", "ty": "value", "nth": j2, "before": True}}, {"finish": 2}, {"finish": 0}]}
+
+
 def run(pid, tier, seed, njobs=None, kind_of="iter"):
     t0 = time.time()
     verdict = lib.Verdict(pid)
     rng = random.Random(seed)
     n = njobs or (1000 if tier == "quick" else 12000)
-    jobs = lib.scenario_jobs(pid, rec=[]) + [iter_job(rng, "%s-%05d" % (pid.lower(), i), kind_of) for i in range(n)]
+    jobs = lib.scenario_jobs(pid, rec=[]) + [nested2_job(rng, "%s-%05d" % (pid.lower(), i)) if (kind_of == "iter" and i % 5 == 4)
+                                             else iter_job(rng, "%s-%05d" % (pid.lower(), i), kind_of) for i in range(n)]
     res = lib.run_jobs(jobs, pid.lower(), procs=8, timeout=1800)
     projected, byid, outcomes = [], {}, {}
     for job, trace, crash in res:
